@@ -20,6 +20,7 @@ import (
 type kase struct {
 	Kind  string `json:"kind"` // "bytes" or "archive"
 	Input []byte `json:"input,omitempty"`
+	Next  []byte `json:"next,omitempty"`
 	Arch  *arch  `json:"archive,omitempty"`
 }
 
@@ -166,6 +167,31 @@ func checkBytes(x []byte) []kit.V {
 	return vs
 }
 
+// checkSequence: what Parse and Format returned for x must not change when they
+// are called again for another input (results must not share storage with
+// later calls; Parse may alias its own input only).
+func checkSequence(x, next []byte) []kit.V {
+	var vs []kit.V
+	func() {
+		defer func() { recover() }()
+		in := append([]byte(nil), x...)
+		a := txtar.Parse(in)
+		f := txtar.Format(a)
+		fc := append([]byte(nil), f...)
+		before := show(a)
+		n2 := append([]byte(nil), next...)
+		txtar.Format(txtar.Parse(n2))
+		if !bytes.Equal(f, fc) || show(a) != before {
+			vs = append(vs, kit.V{
+				Key:  "result-changed-by-later-call input=" + kit.Q(x),
+				What: fmt.Sprintf("Parse(%q) / Format of it read {%s} / %q at first and {%s} / %q after Parse and Format were called for %q", x, before, fc, show(a), f, next),
+				Case: kase{Kind: "sequence", Input: append([]byte(nil), x...), Next: append([]byte(nil), next...)},
+			})
+		}
+	}()
+	return vs
+}
+
 func checkArchive(ar *arch) []kit.V {
 	a := &txtar.Archive{Comment: []byte(ar.Comment)}
 	for _, f := range ar.Files {
@@ -193,6 +219,9 @@ func main() {
 		}
 		if c.Kind == "archive" {
 			return checkArchive(c.Arch)
+		}
+		if c.Kind == "sequence" {
+			return checkSequence(c.Input, c.Next)
 		}
 		return checkBytes(c.Input)
 	}
@@ -232,6 +261,11 @@ func main() {
 			}
 			for _, v := range checkBytes(s) {
 				r.Violation(v.Key, v.What, v.Case)
+			}
+			if n%509 == 0 && len(s) > 2 {
+				for _, v := range checkSequence(s, append([]byte("-- z --\nqq\n"), s[2:]...)) {
+					r.Violation(v.Key, v.What, v.Case)
+				}
 			}
 			if n%3000017 == 1 {
 				r.Sample(string(s))
